@@ -123,7 +123,7 @@ UNITS = {
         widths=[16, 8],
         prelude='preludes/arith.rs',
         specs='contracts/arith.vspec',
-        lemmas=['lemmas/arith_lemmas.rs', 'lemmas/mask_lemmas.rs', 'lemmas/probe_lemmas.rs'],
+        lemmas=['lemmas/arith_lemmas.rs', 'lemmas/mask_lemmas.rs', 'lemmas/probe_lemmas.rs', 'lemmas/layout_lemmas.rs'],
         items=[
             I(RAW, None, 'h1'),
             I(RAW, r'^impl ProbeSeq$', 'move_next', impl='ProbeSeq'),
